@@ -454,7 +454,9 @@ impl LocalPeerService {
         match msg {
             LocalEvent::RoomDefinitionChanged(room) => {
                 let key = remote_key.lock().await;
-                if room.has_user(&key) {
+                // admit the room only for a key that is a valid (enabled) member now: has_user() also
+                // matches disabled entries
+                if room.is_user_valid_at(&key, crate::date_utils::now()) {
                     inbound_query_service.add_allowed_room(room.id);
                     Self::send_event(event_sender, RemoteEvent::RoomDefinitionChanged(room.id))
                         .await
